@@ -119,6 +119,7 @@ TOL_STRESSED = 1e-8
 # history monitor (H)
 
 _reps = weakref.WeakKeyDictionary()     # rep -> {"serial", "epoch", "norms"}
+_labels = weakref.WeakKeyDictionary()   # rep -> input-class label given by the workload
 _serial = itertools.count(1)
 _log = []                               # (serial, epoch, tokens, matrix, scale, cls)
 _stats = {"word_values": 0, "set_generator": 0, "epochs_checked": 0,
@@ -134,6 +135,16 @@ def _state(rep):
 
 def _numeric(M):
     return lr.as_numeric(np.asarray(M))
+
+
+def tag(rep, *label):
+    """the workload names the input class of a representation (construction
+    route / generator class); the history checker puts it in its keys."""
+    try:
+        _labels[rep] = "/".join(str(x) for x in label)
+    except TypeError:
+        pass
+    return rep
 
 
 def _hook_set_generator(call):
@@ -171,7 +182,8 @@ def _hook_word_value(call):
         sc *= max(st["norms"].get(t, 1.0), 1.0)
     _stats["word_values"] += 1
     _log.append((st["serial"], st["epoch"], tokens,
-                 np.array(call.result, copy=True), sc, type(rep).__name__))
+                 np.array(call.result, copy=True), sc,
+                 "%s:%s" % (type(rep).__name__, _labels.get(rep, "unlabelled"))))
 
 
 def _tol_for(*mats):
@@ -211,7 +223,7 @@ def flush_history(run, stressed=False):
                 else:
                     r = 0.0 if A.shape == B.shape else float("inf")
                 mon.judge(r, max(base_tol, _tol_for(A, B)),
-                          "history/same-word-two-values",
+                          "history/same-word-two-values@%s" % cls.split(":", 1)[1],
                           "the same word evaluated twice in one epoch gave two values",
                           {"rep": cls, "serial": serial, "epoch": epoch,
                            "word": list(tokens), "first": table[tokens], "second": M,
@@ -223,13 +235,15 @@ def flush_history(run, stressed=False):
         def judge(kind, lhs, rhs, sc, what, wit, exact):
             L, R = _numeric(lhs), _numeric(rhs)
             if L.shape != R.shape:
-                return mon.fail("history/%s/shape" % kind, what + " (shapes differ)", wit)
+                return mon.fail("history/%s/shape@%s" % (kind, cls.split(":", 1)[1]),
+                                what + " (shapes differ)", wit)
             if exact:
                 return mon.require(bool(np.array_equal(L, R)),
-                                   "history/%s/exact-integer" % kind,
+                                   "history/%s@%s" % (kind, cls.split(":", 1)[1]),
                                    what + " (integer dtype: exact comparison)", wit)
             r = float(np.max(np.abs(L - R))) / sc if L.size else 0.0
-            return mon.judge(r, max(base_tol, _tol_for(L, R)), "history/%s" % kind, what, wit)
+            return mon.judge(r, max(base_tol, _tol_for(L, R)),
+                             "history/%s@%s" % (kind, cls.split(":", 1)[1]), what, wit)
 
         for tokens, M in table.items():
             m = len(tokens)
@@ -332,6 +346,7 @@ def make_rep(rng, n, names, kind, cls=None, order=None, **kwargs):
     rep = cls(**kwargs)
     for g in (order or names):
         rep[g] = gens[g].copy()
+    tag(rep, "base", kind)
     tab = rw.table(gens, invs or None)
     return rep, tab
 
@@ -515,6 +530,7 @@ def wl_names(run, rng, idx):
     else:
         for g in names:
             rep[g] = gens[g].copy()
+    tag(rep, "names", mode)
     if set(rep.generators) != set(letters):
         mon.fail("names/generator-dict", "generators dict has keys %r, expected %r"
                  % (sorted(rep.generators), sorted(letters)),
@@ -603,7 +619,7 @@ def wl_reassign(run, rng, idx):
     live = []       # [label, library rep, model table]
     rep = Representation()
     model = {}
-    live.append(["base", rep, model])
+    live.append(["base", tag(rep, "reassign", "base"), model])
     history = []
     opkinds = set()
 
@@ -669,7 +685,7 @@ def wl_reassign(run, rng, idx):
         elif r < 0.75 and T:
             op = "copy"
             R2 = Representation(R)
-            live.append(["copy#%d" % len(live), R2, dict(T)])
+            live.append(["copy#%d" % len(live), tag(R2, "reassign", "copy"), dict(T)])
             history.append([op, label])
         elif r < 0.95 and len(T) == 2 * len(names):
             which = ("dual", "conjugate", "identity-compose", "astype-complex")[
@@ -689,7 +705,7 @@ def wl_reassign(run, rng, idx):
             else:
                 S = R.astype(complex)
                 TS = {x: np.asarray(T[x]).astype(complex) for x in T}
-            live.append(["%s#%d" % (which, len(live)), S, TS])
+            live.append(["%s#%d" % (which, len(live)), tag(S, "reassign", which), TS])
             history.append([op, label])
         else:
             op = "evaluate"
@@ -756,7 +772,8 @@ def wl_derived(run, rng, idx):
         return rw.evaluate(rw.formal_inverse(tokens), tab)
 
     def run_value(label, build, F, Fletter=None, wordmap=None, alphabet=None,
-                  expect_dtype=None, tol=1e-8, routes=("getitem", "elements", "list")):
+                  expect_dtype=None, tol=1e-8, routes=("getitem", "elements", "list"),
+                  by_letters=False):
         """sigma = build(); sigma(w) must equal F(rho(w), rho(w^-1))."""
         case = dict(base, derived=label)
         run.current_case = case
@@ -767,6 +784,7 @@ def wl_derived(run, rng, idx):
                      "%s raised %s: %s" % (label, type(e).__name__, str(e)[:120]),
                      case, tb=traceback.format_exc())
             return None
+        tag(sigma, label, kind)
         Fl = Fletter or F
         if wordmap is None:
             tabF = {x: Fl(np.asarray(tab[x]), np.asarray(tab[rw.inv_name(x)])) for x in tab}
@@ -794,6 +812,11 @@ def wl_derived(run, rng, idx):
                 sub = wordmap(tokens)
                 ref = rho(sub)
                 sc = rw.scale(sub, rw.letter_norms(tab))
+            elif by_letters:
+                # F(rho(w)) itself is ill-conditioned to evaluate (determinants of
+                # long products): F being a homomorphism, use prod F(letters)
+                ref = rw.evaluate(tokens, tabF, np.asarray(next(iter(tabF.values()))).shape[-1])
+                sc = rw.scale(tokens, normsF)
             else:
                 ref = F(rho(tokens), rho_inv(tokens))
                 sc = rw.scale(tokens, normsF)
@@ -825,6 +848,7 @@ def wl_derived(run, rng, idx):
                      "%s raised %s: %s" % (label, type(e).__name__, str(e)[:120]),
                      case, tb=traceback.format_exc())
             return None
+        tag(sigma, label, kind)
         normsX = rw.letter_norms(tab)
         for j, tokens in enumerate(words):
             route = ("getitem", "elements", "list")[j % 3]
@@ -856,6 +880,11 @@ def wl_derived(run, rng, idx):
     # copy
     run_value("copy", lambda: Representation(rep), ident)
     run_value("change_base_ring(None)", lambda: rep.change_base_ring(None), ident)
+    if k >= 2:
+        sub = [names[0], names[0].upper()]
+        run_value("copy(generator_names=subset)",
+                  lambda: Representation(rep, generator_names=list(sub)), ident,
+                  wordmap=lambda t: t, alphabet=list(sub))
     # conjugate
     C = rw.rand_cond(rng, n, 20.0, complex_=cplx)
     Ci = rw.inverse(C)
@@ -873,7 +902,7 @@ def wl_derived(run, rng, idx):
               lambda: rep.compose(lambda M, inv=None: (np.linalg.inv(M) if inv is None else inv).T),
               lambda M, Mi: Mi.T)
     run_value("compose(det*M)", lambda: rep.compose(lambda M: np.linalg.det(M) * M),
-              lambda M, Mi: np.linalg.det(M) * M)
+              lambda M, Mi: np.linalg.det(M) * M, by_letters=True)
     run_value("compose(kron,compute_inverses)",
               lambda: rep.compose(lambda M: np.kron(M, M), compute_inverses=True),
               lambda M, Mi: np.kron(M, M))
@@ -902,6 +931,7 @@ def wl_derived(run, rng, idx):
                  "tensor_product raised %s: %s" % (type(e).__name__, str(e)[:120]), case,
                  tb=traceback.format_exc())
     if T is not None:
+        tag(T, "tensor_product", kind)
         n1s, n2s = rw.letter_norms(tab), rw.letter_norms(tab2)
         for j, tokens in enumerate(words):
             route = ("getitem", "elements", "list")[j % 3]
@@ -936,14 +966,14 @@ def wl_derived(run, rng, idx):
             case = {"derived": "gln_adjoint", "kind": "int", "n": n, "generator a": A}
             run.current_case = case
             sc = float(np.linalg.norm(A.astype(float), 2) * np.linalg.norm(Ai.astype(float), 2))
-            G = _numeric(r1.gln_adjoint()["a"])
+            G = _numeric(tag(r1.gln_adjoint(), "gln_adjoint", "int")["a"])
             ref = np.kron(A, Ai.T).astype(float)
             if G.shape != ref.shape:
                 mon.fail("derived/gln_adjoint/shape", "shape %r" % (G.shape,), case)
                 break
             mon.judge(float(np.max(np.abs(G - ref))) / sc, 1e-8, "derived/gln_adjoint/int",
                       "gln_adjoint: sigma(a) differs from kron(rho(a), rho(a)^-T)", case)
-            S = _numeric(r1.sln_adjoint()["a"])
+            S = _numeric(tag(r1.sln_adjoint(), "sln_adjoint", "int")["a"])
             want = float(np.trace(A) * np.trace(Ai) - 1)
             mon.judge(abs(float(np.trace(S)) - want) / (n * n * sc), 1e-8,
                       "derived/sln_adjoint/character/int",
@@ -1030,6 +1060,7 @@ def wl_wrapping(run, rng, idx):
         rep = RepCls()
         for g in names:
             rep[g] = Wrap(gens[g].copy(), column_vectors=True)
+    tag(rep, "wrapping", which)
     words = [(), (letters[0],), (letters[1],)]
     for _ in range(4):
         words.append(rw.random_word(rng, letters, int(rng.integers(2, 9)), cancel=0.2))
@@ -1406,13 +1437,13 @@ def wl_fox_multichar(run, rng, idx):
 
 
 WORKLOADS = [
-    Workload("dense-words", wl_dense, quick=24, thorough=480),
-    Workload("random-words", wl_random, quick=150, thorough=4000),
-    Workload("names", wl_names, quick=112, thorough=2240),
-    Workload("reassign", wl_reassign, quick=100, thorough=3200),
-    Workload("derived", wl_derived, quick=50, thorough=1500),
-    Workload("wrapping", wl_wrapping, quick=32, thorough=800),
-    Workload("fox", wl_fox, quick=72, thorough=2400),
-    Workload("fox-dense", wl_fox_dense, quick=4, thorough=64),
+    Workload("dense-words", wl_dense, quick=24, thorough=960),
+    Workload("random-words", wl_random, quick=150, thorough=9000),
+    Workload("names", wl_names, quick=112, thorough=4480),
+    Workload("reassign", wl_reassign, quick=100, thorough=6000),
+    Workload("derived", wl_derived, quick=50, thorough=3000),
+    Workload("wrapping", wl_wrapping, quick=32, thorough=1600),
+    Workload("fox", wl_fox, quick=72, thorough=4500),
+    Workload("fox-dense", wl_fox_dense, quick=4, thorough=192),
     Workload("fox-multichar", wl_fox_multichar, quick=1, thorough=16),
 ]
